@@ -283,6 +283,11 @@ impl<'a> M<'a> {
         if self.i == ds { self.i = start; return false; }
         if (if neg { -acc } else { acc }) == v { true } else { self.i = start; false }
     }
+    /// an unsigned count (pad width, capture group): digits only, no sign
+    fn unum(&mut self, v: i128) -> bool {
+        if self.peek() == Some('-') || self.peek() == Some('+') { return false; }
+        self.num(v)
+    }
     fn range(&mut self, r: &Range) -> bool {
         match r {
             Range::Index(i) => self.num(*i),
@@ -359,7 +364,7 @@ impl<'a> M<'a> {
             Op::Pad(w, c, d) => {
                 let ds = match d { PDir::Both => "both", PDir::Left => "left", PDir::Right => "right" };
                 let cs = c.to_string();
-                if !(self.lit("pad:") && self.num(*w as i128)) { return false; }
+                if !(self.lit("pad:") && self.unum(*w as i128)) { return false; }
                 // [:CHAR[:DIR]] ; tolerated: CHAR written as several characters (first one used)
                 if *c == ' ' && *d == PDir::Right && self.at_op_end() { return true; }
                 let pad_arg = |m: &mut Self| -> bool {
@@ -372,7 +377,7 @@ impl<'a> M<'a> {
             }
             Op::RegexExtract(p, g) => {
                 if !(self.lit("regex_extract:") && self.lit(p)) { return false; }
-                match g { None => true, Some(g) => self.lit(":") && self.num(*g as i128) }
+                match g { None => true, Some(g) => self.lit(":") && self.unum(*g as i128) }
             }
         }
     }
